@@ -223,6 +223,52 @@ func runC11(c *Ctx, w *World, r *Report) {
 				}
 			}
 		}
+		// in range: every gathered byte s[k] is read under a guard k < L for a bound L that never exceeds len(s)
+		// (len(s) itself, or a clamp of it). `k <= L` reads one byte past the end for a string that ends in the window
+		{
+			lenS := linAtom("call:builtin len(p0)")
+			var lenBounded func(v ssa.Value, depth int) bool
+			lenBounded = func(v ssa.Value, depth int) bool {
+				v = stripConv(v)
+				if fa.Lin(v).Eq(lenS) {
+					return true
+				}
+				p, ok := v.(*ssa.Phi)
+				if !ok || depth > 3 || isLoopHeaderPhi(p) {
+					return false
+				}
+				for i, e := range p.Edges {
+					if lenBounded(e, depth+1) {
+						continue
+					}
+					pred := p.Block().Preds[i]
+					d := fa.Lin(e).Sub(lenS)
+					bd := fa.BoundsAt(pred, d)
+					fa.boundsIncludingSelf(pred, p.Block(), d, &bd)
+					if !(bd.HasHi && bd.Hi <= 0) {
+						return false
+					}
+				}
+				return true
+			}
+			var cands []ssa.Value
+			eachInstr(fn, func(ins ssa.Instruction) {
+				if v, ok := ins.(ssa.Value); ok && isIntType(v.Type()) && lenBounded(v, 0) {
+					cands = append(cands, v)
+				}
+			})
+			for _, t := range terms {
+				okR := false
+				for _, x := range cands {
+					if bd := fa.BoundsAt(t.Ins.Block(), fa.Lin(t.Idx).Sub(fa.Lin(x))); bd.HasHi && bd.Hi <= -1 {
+						okR = true
+					}
+				}
+				if !okR && bad == "" {
+					bad = fmt.Sprintf("the byte gathered at %s is not read under a guard index < L with L at most len(s): for a string that ends inside the window the read goes one past its end and panics", w.InstrPos(t.Ins))
+				}
+			}
+		}
 		var jl []int64
 		for j := range js {
 			jl = append(jl, j)
